@@ -106,9 +106,14 @@ def flag_tables(ctx, rep, rule_truthy, rule_why):
             rep.check(bool(fc) == (cl != 'unset'), rule_truthy, "failed_critical() with %s" % label, f2.qualname,
                       "failed_critical() is %r when the %s" % (fc, label),
                       "failed_critical() must be true iff a critical job failed")
-            # why(): which return statement answers
-            w = _which_return(ctx, ev, 'why', obj)
-            sites[(tl != 'unset', cl != 'unset', tl)] = w
+            # why(): what it answers (the literal, or the text of the formatting expression)
+            try:
+                wv = ev.call_method('why', obj)
+            except (tt.Inconclusive, tt.Raised) as e:
+                rep.error(rule_why, "why() not evaluable: %s" % e)
+                return
+            txt = wv.name if isinstance(wv, tt.Sentinel) else repr(wv)
+            sites[(tl != 'unset', cl != 'unset', tl)] = (txt, txt)
     fw = ctx.prog.supplier(r.sched, 'why')
     base = sites.get((False, False, 'unset'))
     for (tset, cset, tl), w in sorted(sites.items(), key=repr):
@@ -122,10 +127,8 @@ def flag_tables(ctx, rep, rule_truthy, rule_why):
                   "why() answers `%s` when %s" % (w[1], label),
                   "why() says FINE (or the same as after a success) although the run failed")
     # an answer that formats a cause flag may only be given when that flag is set
-    rets = [n for n in walk_local(fw.node) if isinstance(n, ast.Return)]
     for (tset, cset, tl), w in sorted(sites.items(), key=repr):
-        node = rets[w[0]]
-        used = {a.attr for a in ast.walk(node) if isinstance(a, ast.Attribute)}
+        used = {a for a in (tfn, cfn) if w[0].startswith('fmt:') and a in w[0]}
         label = "timeout %s, critical %s" % (tl if tset else 'unset', 'set' if cset else 'unset')
         rep.check(not ((tfn in used and not tset) or (cfn in used and not cset)), rule_why,
                   "why() with %s does not quote an unset cause" % label, fw.qualname,
